@@ -35,5 +35,17 @@ b, e = "<!-- DETECTION-TABLE-BEGIN -->", "<!-- DETECTION-TABLE-END -->"
 block = b + "\n" + "\n".join(out) + "\n" + e
 if b in s: s = s[:s.index(b)] + block + s[s.index(e)+len(e):]
 else: s += "\n" + block + "\n"
+# fixed / known tables from known_findings.txt
+fixed, known = [], {}
+for l in open(f"{root}/known_findings.txt"):
+    m = re.match(r"fixed: property=(\S+) (\S+) (.*)", l)
+    if m: fixed.append(m.groups())
+    m = re.match(r"known: property=(\S+) cell=(\S+)", l)
+    if m: known.setdefault(m.group(1), []).append(m.group(2))
+ft = ["| property | commit | what failed |", "|---|---|---|"] + [f"| {a} | {b} | {c[:230].replace('|','/')} |" for a, b, c in sorted(fixed)]
+kt = ["| property | known cells |", "|---|---|"] + [f"| {k} | {len(v)} |" for k, v in sorted(known.items())]
+for tag, tbl in (("FIXED-TABLE", ft), ("KNOWN-TABLE", kt)):
+    b, e = f"<!-- {tag}-BEGIN -->", f"<!-- {tag}-END -->"
+    if b in s: s = s[:s.index(b)] + b + "\n" + "\n".join(tbl) + "\n" + e + s[s.index(e)+len(e):]
 open(f"{root}/DESIGN.md", "w").write(s)
 print(f"{det}/{n}")
